@@ -64,7 +64,7 @@ def c07_2(R):
         R.fail([f.name, "no-write(%s=MAX)" % CBU], "force_immediate_ack no longer saturates the unacked counter", where=f.where(), instance="force=>counter=MAX")
 
 
-@rule("C07.3", ["C07"], ["E3", "E2"], "forced immediate ACK on duplicate / out-of-order or gap-fill / FIN",
+@rule("C07.3", ["C07", "C02"], ["E3", "E2"], "forced immediate ACK on duplicate / out-of-order or gap-fill / FIN",
       "In process_incoming_message: every path through `offset < 0` = true in the ST_DATA arm calls force_immediate_ack before returning; every path on which the assembler is or was non-empty "
       "calls force_immediate_ack and then send_ack; every path through the ST_FIN arm calls force_immediate_ack.")
 def c07_3(R):
